@@ -60,7 +60,8 @@ func list(head string, items ...string) string {
 // other occurrence is printed in full (the codecs' own tables of repeated types are modelled on the
 // Lean side, keyed by type ID).
 type printer struct {
-	seen map[cadence.Type]bool
+	seen    map[cadence.Type]bool
+	capByID bool // print the borrow type of a capability value by its type ID only
 }
 
 // TypeSx renders a type (one root).
@@ -76,6 +77,14 @@ func ValueSx(v cadence.Value) string {
 }
 
 func (p *printer) root(t cadence.Type) string { return TypeSx(t) }
+
+// ValueSxCapByID renders a value with the borrow types of capability values given by their type IDs
+// (Go's Type.Equal identifies composite types by location and qualified identifier; CCF carries the
+// borrow type as an inline type, i.e. without initializers and interface members).
+func ValueSxCapByID(v cadence.Value) string {
+	p := &printer{capByID: true}
+	return p.val(v)
+}
 
 func isNilType(t cadence.Type) bool {
 	if t == nil {
@@ -307,9 +316,58 @@ func domainSx(d common.PathDomain) string {
 	return "domain" + strconv.Itoa(int(d))
 }
 
+func typeByID(t cadence.Type) (s string) {
+	defer func() {
+		if r := recover(); r != nil {
+			s = "(typeid ?)"
+		}
+	}()
+	if isNilType(t) {
+		return "nil"
+	}
+	return list("typeid", Str(t.ID()))
+}
+
+// compByID: kind, type ID and fields of a composite type, the field types by their type IDs
+func compByID(t cadence.Type) string {
+	ct, ok := t.(cadence.CompositeType)
+	if !ok || isNilType(t) {
+		return typeByID(t)
+	}
+	fields := CompositeFields(ct)
+	fs := make([]string, len(fields))
+	for i, f := range fields {
+		fs[i] = list("f", Str(f.Identifier), typeByID(f.Type))
+	}
+	return list("comp", compKindOf(ct), Str(ct.ID()), list("fs", fs...))
+}
+
+func compKindOf(c cadence.CompositeType) string {
+	switch c.(type) {
+	case *cadence.StructType:
+		return "struct"
+	case *cadence.ResourceType:
+		return "resource"
+	case *cadence.EventType:
+		return "event"
+	case *cadence.ContractType:
+		return "contract"
+	case *cadence.EnumType:
+		return "enum"
+	case *cadence.AttachmentType:
+		return "attachment"
+	}
+	return "?"
+}
+
 func (p *printer) val(v cadence.Value) string {
 	if v == nil {
 		return "nilv"
+	}
+	if p.capByID {
+		if c, ok := v.(cadence.Composite); ok {
+			return list("compv", append([]string{compByID(v.Type())}, p.vals(CompositeValues(c))...)...)
+		}
 	}
 	if k, b, ok := bigOf(v); ok {
 		return list("int", k, b.String())
@@ -380,6 +438,9 @@ func (p *printer) val(v cadence.Value) string {
 	case cadence.Capability:
 		if v.DeprecatedPath != nil {
 			return list("capv-deprecated", p.val(*v.DeprecatedPath), hex.EncodeToString(v.Address[:]), p.root(v.BorrowType))
+		}
+		if p.capByID && !isNilType(v.BorrowType) {
+			return list("capv", strconv.FormatUint(uint64(v.ID), 10), hex.EncodeToString(v.Address[:]), list("typeid", Str(v.BorrowType.ID())))
 		}
 		return list("capv", strconv.FormatUint(uint64(v.ID), 10), hex.EncodeToString(v.Address[:]), p.root(v.BorrowType))
 	case cadence.TypeValue:
